@@ -15,7 +15,7 @@ RULE = (
     "partition: every (n, n_chunks) with n<=14 and n_chunks<=C(n,2)+3, and n<=40 (thorough 70) with n_chunks in 1..12 and around "
     "C(n,2); assembly: 0..8 (sometimes 12/46) posterior samples of both shipped types (incl. identical pairs -> exact 0 distances), a screen to "
     "predict on (occasionally 12 or 46 samples = 66 / 1035 pairs), n_chunks in 1..pairs+3, an order of chunk files covering all chunks with repetitions, through the API and "
-    "(1 in 4) the calculate_distance_matrix CLI with the samples spread over 1..3 files given in order. Non-trivial = n_chunks>=2 with a repeated or out-of-order chunk, or "
+    "(1 in 4) the calculate_distance_matrix CLI with the samples spread over 1..3 files given in order; half the cases with the progress option / --progress flag, some with files in oddly named directories (glob characters, spaces, non-ASCII). Non-trivial = n_chunks>=2 with a repeated or out-of-order chunk, or "
     "n_chunks > C(n,2) (partition cases: n_chunks>=2 and n>=3). distinct = distinct case JSON."
 )
 ASSUMPTIONS = [
@@ -75,6 +75,9 @@ def _assembly(draw):
         "cli": draw(st.integers(0, 3)) == 0 and n >= 1,
         # the command line takes one file of posterior samples per chain: the samples are spread over 1..3 files in order
         "theta_files": draw(st.integers(1, 3)),
+        # non-default reporting option of the computation (library argument / --progress flag); files in oddly named directories
+        "progress": draw(st.booleans()),
+        "odd_paths": draw(st.one_of(st.none(), st.integers(0, 40))),
     }
 
 
@@ -161,17 +164,24 @@ def check_case(case):
             nf = max(1, min(case.get("theta_files", 1), n))
             cuts = [round(i * n / nf) for i in range(nf + 1)]
             for a_, b_ in zip(cuts, cuts[1:]):
-                tf = tmp.fresh("thetas_%d.h5" % a_)
+                tf = tmp.fresh("thetas_%d.h5" % a_, odd=None if case.get("odd_paths") is None else case["odd_paths"] + 3 + a_)
                 paths.append(tf)
                 S.build_holder(case["thetas"][a_:b_]).save_h5(tf)
                 theta_files.append(tf)
         for c in range(k):
-            p = tmp.fresh("dist_%d.h5" % c)
+            p = tmp.fresh("dist_%d.h5" % c, odd=None if case.get("odd_paths") is None else case["odd_paths"] + c)
             paths.append(p)
             if case["cli"]:
-                run_cli("calculate_distance_matrix", ["--data", screen_file, "--thetas"] + theta_files + ["--distance-metric", "MSEDistance", "--n-chunks", k, "--chunk-index", c, "--output", p])
+                run_cli("calculate_distance_matrix", ["--data", screen_file, "--thetas"] + theta_files + ["--distance-metric", "MSEDistance", "--n-chunks", k, "--chunk-index", c, "--output", p] + (["--progress"] if case.get("progress") else []))
             else:
-                m = dc.calculate_pairwise_distance_matrix_on_predictions(thetas=holder, distance_metric=metric, data=screen, chunk_index=c, n_chunks=k)
+                if case.get("progress"):
+                    import contextlib
+                    import io
+
+                    with contextlib.redirect_stderr(io.StringIO()):
+                        m = dc.calculate_pairwise_distance_matrix_on_predictions(thetas=holder, distance_metric=metric, data=screen, chunk_index=c, n_chunks=k, progress=True)
+                else:
+                    m = dc.calculate_pairwise_distance_matrix_on_predictions(thetas=holder, distance_metric=metric, data=screen, chunk_index=c, n_chunks=k)
                 m.save(p)
             chunk_files[c] = p
         loaded = [dc.ChunkedDistanceMatrix.load(chunk_files[c]) for c in case["order"]]
